@@ -1,75 +1,10 @@
 package props
 
 import (
-	"encoding/json"
-	"os"
-	"path/filepath"
-	"sync"
-	"syscall"
 	"testing"
-	"time"
 )
 
 // C03: every entry point is total. The case is one APICall (api_calls.go).
-
-const c03Deadline = 10 * time.Second // typical cost of a call is far below a millisecond
-
-// procCPU returns the CPU time consumed by this process so far. The watchdog fires only
-// when the current call has been running for longer than the deadline on the wall clock
-// AND the process has burnt that much CPU time meanwhile: a process that is merely starved
-// on a busy machine does not look like a hang.
-func procCPU() time.Duration {
-	var ru syscall.Rusage
-	if syscall.Getrusage(syscall.RUSAGE_SELF, &ru) != nil {
-		return 0
-	}
-	return time.Duration(ru.Utime.Nano() + ru.Stime.Nano())
-}
-
-var (
-	c03Mu      sync.Mutex
-	c03Started time.Time
-	c03Current []byte
-	c03Prop    string
-	c03CPU     time.Duration
-	c03Once    sync.Once
-)
-
-// watchdogArm / watchdogDisarm bracket a library call that must return (also used by C13).
-func watchdogArm(prop string, c any) {
-	c03Once.Do(c03Watchdog)
-	raw, _ := json.Marshal(c)
-	c03Mu.Lock()
-	c03Current, c03Started, c03Prop, c03CPU = raw, time.Now(), prop, procCPU()
-	c03Mu.Unlock()
-}
-
-func watchdogDisarm() {
-	c03Mu.Lock()
-	c03Current = nil
-	c03Mu.Unlock()
-}
-
-// c03Watchdog turns a call that does not return into a saved counter-example: it writes
-// the journalled case as the shard's failure file and ends the process (a hung goroutine
-// cannot be stopped any other way). The wall clock is used for this purpose only.
-func c03Watchdog() {
-	go func() {
-		for {
-			time.Sleep(500 * time.Millisecond)
-			c03Mu.Lock()
-			cur, since, prop, cpu0 := c03Current, time.Since(c03Started), c03Prop, c03CPU
-			c03Mu.Unlock()
-			if cur != nil && since > c03Deadline && procCPU()-cpu0 > c03Deadline*9/10 {
-				if outDir != "" {
-					b, _ := json.MarshalIndent(failureFile{Property: prop, Msg: "the call did not return within " + c03Deadline.String() + " (hang)", Case: cur}, "", " ")
-					_ = os.WriteFile(filepath.Join(outDir, "failure."+shardTag+".json"), b, 0o644)
-				}
-				os.Exit(3)
-			}
-		}
-	}()
-}
 
 func judgeC03(c *APICall, cx *Ctx) *Violation {
 	watchdogArm("C03", c)
